@@ -23,6 +23,10 @@ class C08(Prop):
         base = rng.choice([0, 1])
         n = rng.randint(2, 14)
         sizes = [s for s in rng.choice(SIZE_SETS) if s <= n] or [2]
+        if i % 6 == 5:
+            # large cliques next to small ones (sizes whose hash-table order is not their numeric order: 8, 9, 16, 33 ...)
+            sizes = rng.choice([[2, 9], [2, 3, 8], [3, 10], [2, 16], [9, 8], [2, 4, 33], [17, 3, 2, 5, 32], [8]])
+            n = max(sizes) + rng.randint(0, 4)
         verts = list(range(base, base + n))
         cover = []
         for _ in range(rng.randint(1, 10)):
